@@ -151,5 +151,16 @@ add("C11", "TestC11", "exploration",
     "Trusted: the Go race detector (happens-before based: it flags an unsynchronised conflicting pair when both accesses execute concurrently, largely independent of the exact interleaving). A corruption that needs one specific interleaving AND is invisible to the race detector (e.g. through sync/atomic) is out of reach.",
     "randomized concurrent read workloads (rapid-generated) under the Go race detector, differential against sequential execution", "DESIGN.md §4 C11", race=True)
 
+# A second pass in a build for a 32-bit platform (GOARCH=386; int and uint are 32
+# bits wide there): the main generated-input test of each property, fewer cases.
+ARCH386 = {"C01": 1600, "C02": 1600, "C03": 1600, "C04": 1200, "C05": 600, "C06": 1200, "C07": 800, "C08": 1200,
+           "C09": 1600, "C10": 1200, "C12": 1200, "C13": 1200, "C14": 1200, "C15": 2400, "C16": 2400,
+           "C18": 1200, "C19": 600, "C20": 320}
+for pid, n in ARCH386.items():
+    T[pid]["quick"]["arch386"] = dict(cases=n, shards=4)
+    T[pid]["thorough"]["arch386"] = dict(cases=n * 25, shards=16)
+    T[pid]["rule"] += "; plus a pass of the main test in a GOARCH=386 build (%d cases quick / %d thorough)" % (n, n * 25)
+    T[pid]["note"] = T[pid]["note"].replace(", 32-bit platforms", "")
+
 json.dump(T, open("props.json", "w"), indent=1, sort_keys=True)
 print(len(T), "properties")
